@@ -186,7 +186,9 @@ class Check:
             return False
         return True
 
-    def harness(self, binname, args, timeout=1800):
+    def harness(self, binname, args, timeout=None):
+        if timeout is None:
+            timeout = 600 if self.tier == "quick" else 3600
         cmd = [os.path.join(TARGET, "debug", binname)] + args + ["--seed", str(self.seed), "--tier", self.tier]
         try:
             rc, out, err = sh(cmd, cwd=HARNESS, timeout=timeout, env={"RUST_BACKTRACE": "0"})
